@@ -335,6 +335,28 @@ def run_random_pair(ctx: Ctx, case: Dict[str, Any]) -> None:
             ctx.violation("refines:not-rejected:different-interfaces",
                           "refines across different interfaces %s" % ("returned" if out == "returned" else
                                                                         "raised " + out), case)
+    # the same constraints over an interface widened by one variable that nothing mentions: still a different
+    # interface, whatever the constraint lists look like
+    if ctx.rng.random() < 0.3:
+        wide = dict(s1)
+        key = ctx.rng.choice(["in", "out"])
+        wide[key] = list(s1[key]) + ["unused_zz"]
+        try:
+            cw = P.mk_contract(wide, False)
+            for a, b, tag in ((c1, cw, "narrow<=wide"), (cw, c1, "wide<=narrow")):
+                try:
+                    a.refines(b)
+                    out = "returned"
+                except Exception as e:  # noqa: BLE001
+                    out = type(e).__name__
+                ctx.count("op:refines-widened-interface:" + out)
+                if out != "IncompatibleArgsError":
+                    ctx.violation("refines:not-rejected:different-interfaces",
+                                  "refines between identical constraint lists over interfaces %s/%s and %s/%s (%s) %s"
+                                  % (s1["in"], s1["out"], wide["in"], wide["out"], tag,
+                                     "returned" if out == "returned" else "raised " + out), case)
+        except ValueError:
+            pass
     ctx.case_done(case, True)
 
 
